@@ -109,4 +109,6 @@ def run(ctx):
     rep.floor('R02.1', 'password sinks', n_sinks, 4 * ns)
     rep.floor('R02.3', 'guarded Ok paths', n_guards, ns)
     rep.floor('R02.4', 'error mappings', n_maps, 3 * ns)
+    from rules import profile
+    profile.check(ctx, rep, 'R02.P', ['creg_start', 'clog_start', 'creg_finish', 'clog_finish'])
     return rep
